@@ -84,9 +84,8 @@ type progCase struct {
 	Toks []gTok `json:"toks"`
 	Tree []any  `json:"tree"`
 	// expectations set by the generator family (absent: valid program)
-	ExpectParse   string `json:"expectParse,omitempty"`
-	ExpectCompile string `json:"expectCompile,omitempty"`
-	Plant         any    `json:"plant,omitempty"`
+	ExpectParse   string `json:"xp,omitempty"`
+	ExpectCompile string `json:"xc,omitempty"`
 }
 
 var paramMaps = []map[string]string{
@@ -99,6 +98,41 @@ type progChecker struct {
 	res     *Result
 	layouts int
 	seen    map[string]bool
+	// trace of successful parses for TLC (TraceParse)
+	trace     *json.Encoder
+	side      *json.Encoder
+	traceN    int
+	traceCap  int
+	traceSeen map[string]bool
+}
+
+// recordParse evaluates the C08 pre-filter on a successful parse and writes
+// the observation for TLC.
+func (pc *progChecker) recordParse(text string, stmts []parser.Statement) {
+	if pc.trace == nil || pc.traceSeen[text] {
+		return
+	}
+	var real []gTok
+	for _, t := range parser.Scan(text) {
+		real = append(real, gTok{K: kindName(t.Kind), V: t.Value})
+	}
+	if real == nil {
+		real = []gTok{}
+	}
+	proj := projStmts(stmts)
+	ok := accounts(real, proj)
+	pc.res.Checks["accounting_prefilter"]++
+	if ok && pc.traceN >= pc.traceCap {
+		return
+	}
+	pc.traceSeen[text] = true
+	pc.traceN++
+	kv := make([]map[string]string, len(real))
+	for i, t := range real {
+		kv[i] = map[string]string{"k": t.K, "v": t.V}
+	}
+	pc.trace.Encode(map[string]any{"id": pc.traceN, "toks": kv, "tree": withPrintFlags(any(proj))})
+	pc.side.Encode(map[string]any{"id": pc.traceN, "b64": b64(text), "go_accounted": ok})
 }
 
 func (pc *progChecker) panicViolation(prop, text, what string, p any, stack string) {
@@ -341,6 +375,32 @@ func (pc *progChecker) checkGenerated(c *progCase, rng interface {
 		}
 		stmts, perr, sql, cerr := pc.totalityChecks(text)
 		extra := map[string]any{"family": c.Fam, "choice": c.Ch, "layout": layout}
+		if perr == nil {
+			pc.recordParse(text, stmts)
+		}
+		if perr != nil || cerr != nil {
+			res.Checks["error_positions"]++
+			if msg := errorPositionChecks(text); msg != "" {
+				res.violate(Violation{Property: "C10", Kind: "error_position", InputB64: b64(text), Extra: extra, Reason: msg})
+			}
+		}
+		switch c.ExpectCompile {
+		case "ok":
+			res.Checks["rule_free_compiles"]++
+			if cerr != nil {
+				res.violate(Violation{Property: "C13", Kind: "valid_program_not_compiled", InputB64: b64(text), Extra: extra,
+					Observed: cerr.Error(), Reason: "a program that breaks no documented rule failed to compile: " + firstLine(cerr.Error())})
+			}
+		case "err":
+			res.Checks["planted_rejected"]++
+			if cerr == nil {
+				res.violate(Violation{Property: "C13", Kind: "planted_violation_compiled", InputB64: b64(text), Extra: extra,
+					Observed: sql, Reason: "a program that breaks a documented rule was compiled"})
+			}
+		}
+		if c.ExpectParse != "ok" {
+			continue
+		}
 		res.Checks["parse_tree_vs_grammar"]++
 		if perr != nil {
 			res.violate(Violation{Property: "C07", Kind: "valid_program_rejected", InputB64: b64(text), Extra: extra,
@@ -356,25 +416,12 @@ func (pc *progChecker) checkGenerated(c *progCase, rng interface {
 		nodes := listNodes(stmts)
 		res.Checks["spans"]++
 		if msg := pc.spanChecks(text, c, ext, nodes); msg != "" {
-			res.violate(Violation{Property: "C10", Kind: "span", InputB64: b64(text), Extra: extra, Reason: msg})
+			res.violate(Violation{Property: "C10", Kind: "span", InputB64: b64(text), Reason: msg,
+				Extra: map[string]any{"family": c.Fam, "choice": c.Ch, "layout": layout, "toks": c.Toks, "ext": ext}})
 		}
 		res.Checks["walk"]++
 		for i, s := range stmts {
-			prefix := fmt.Sprintf("%d", i)
-			var sub []nodeInfo
-			base := -1
-			for j, n := range nodes {
-				if n.Path == prefix || strings.HasPrefix(n.Path, prefix+"/") {
-					if base < 0 {
-						base = j
-					}
-					m := n
-					if m.Parent >= 0 {
-						m.Parent -= base
-					}
-					sub = append(sub, m)
-				}
-			}
+			sub := subNodes(nodes, fmt.Sprintf("%d", i))
 			if msg := pc.walkChecks(text, s, sub, 24); msg != "" {
 				res.violate(Violation{Property: "C11", Kind: "walk", InputB64: b64(text), Extra: extra, Reason: msg})
 				break
@@ -403,14 +450,11 @@ func (pc *progChecker) checkGenerated(c *progCase, rng interface {
 				res.Checks["implicit_names"]++
 				alias := " AS " + sqlQuoteIdent(text[want.Start:want.End])
 				if !strings.Contains(sql, alias) {
-					res.violate(Violation{Property: "C10", Kind: "implicit_column_name", InputB64: b64(text), Extra: extra,
+					res.violate(Violation{Property: "C10", Kind: "implicit_column_name", InputB64: b64(text),
+						Extra: map[string]any{"family": c.Fam, "choice": c.Ch, "layout": layout, "alias": alias},
 						Observed: sql, Reason: "the implicit column name is not the source text of its expression: expected" + alias})
 				}
 			}
-		}
-		if c.ExpectCompile == "ok" && cerr != nil {
-			res.violate(Violation{Property: "C13", Kind: "valid_program_not_compiled", InputB64: b64(text), Extra: extra,
-				Observed: cerr.Error(), Reason: "a program that breaks no documented rule failed to compile: " + firstLine(cerr.Error())})
 		}
 	}
 	if len(pc.seen) > 300000 {
@@ -432,9 +476,53 @@ func cmdProgReplay(a args) {
 	res := newResult(a.str("property", "C07"))
 	out := a.str("out", "result.json")
 	startWatchdog(res, out)
-	pc := &progChecker{res: res, layouts: a.int("layouts", 4), seen: map[string]bool{}}
+	pc := &progChecker{res: res, layouts: a.int("layouts", 4), seen: map[string]bool{}, traceSeen: map[string]bool{},
+		traceCap: a.int("trace-cap", 30000)}
+	if tp := a.str("trace", ""); tp != "" {
+		tf, err := os.Create(tp)
+		if err != nil {
+			fatal(err)
+		}
+		defer tf.Close()
+		sf, err := os.Create(a.str("side", tp+".side"))
+		if err != nil {
+			fatal(err)
+		}
+		defer sf.Close()
+		pc.trace, pc.side = json.NewEncoder(tf), json.NewEncoder(sf)
+	}
 	rng := newRand(int64(a.int("seed", 1)), "prog-replay")
+	// random token soups and byte strings (C12 totality, C08 for the accepted ones)
+	if n := a.int("soups", 0); n > 0 {
+		srng := newRand(int64(a.int("seed", 1)), "soups")
+		for i := 0; i < n; i++ {
+			text := randomLexInput(srng)
+			if i%3 == 0 {
+				text = "T | " + []string{"where ", "project ", "summarize ", "sort by ", "extend ", "join (B) on ", "take ", "top 1 by ", "render x with ("}[srng.Intn(9)] + text
+			}
+			if pc.seen[text] {
+				continue
+			}
+			pc.seen[text] = true
+			res.Cases++
+			res.Evaluations++
+			stmts, perr, _, cerr := pc.totalityChecks(text)
+			if perr == nil {
+				res.Nontrivial++
+				pc.recordParse(text, stmts)
+			}
+			if perr != nil || cerr != nil {
+				res.Checks["error_positions"]++
+				if msg := errorPositionChecks(text); msg != "" {
+					res.violate(Violation{Property: "C10", Kind: "error_position", InputB64: b64(text), Reason: msg})
+				}
+			}
+		}
+	}
 	for _, f := range strings.Split(a.str("cases", ""), ",") {
+		if f == "" {
+			continue
+		}
 		n := forEachTagged(f, "CASE", func(p []byte) {
 			var c progCase
 			if err := json.Unmarshal(p, &c); err != nil {
@@ -447,4 +535,128 @@ func cmdProgReplay(a args) {
 		}
 	}
 	res.write(out)
+}
+
+// cmdParseTraceCheck reads TLC's verdicts on the recorded successful parses.
+func cmdParseTraceCheck(a args) {
+	prop := a.str("property", "C08")
+	res := newResult(prop)
+	type sideRec struct {
+		ID  int    `json:"id"`
+		B64 string `json:"b64"`
+		Go  bool   `json:"go_accounted"`
+	}
+	side := map[int]sideRec{}
+	b, err := os.ReadFile(a.str("side", ""))
+	if err != nil {
+		fatal(err)
+	}
+	for _, line := range strings.Split(string(b), "\n") {
+		if line == "" {
+			continue
+		}
+		var r sideRec
+		if err := json.Unmarshal([]byte(line), &r); err != nil {
+			fatal(err)
+		}
+		side[r.ID] = r
+	}
+	n := forEachTagged(a.str("verdicts", ""), "TV", func(p []byte) {
+		var v struct {
+			ID         int  `json:"id"`
+			Accounted  bool `json:"accounted"`
+			Wellformed bool `json:"wellformed"`
+		}
+		if err := json.Unmarshal(p, &v); err != nil {
+			fatal("bad verdict", err)
+		}
+		r, ok := side[v.ID]
+		if !ok {
+			fatal("verdict for unknown id", v.ID)
+		}
+		res.Cases++
+		res.Evaluations++
+		res.Nontrivial++
+		res.Checks["accepted_sources_validated_by_TLC"]++
+		if v.Accounted != r.Go {
+			fatal(fmt.Sprintf("pre-filter and TLC disagree on record %d (go=%v tlc=%v): %s", v.ID, r.Go, v.Accounted, r.B64))
+		}
+		if res.Cases%997 == 1 {
+			raw, _ := base64Decode(r.B64)
+			res.sample(map[string]any{"accepted_source": raw, "accounted": v.Accounted, "wellformed": v.Wellformed})
+		}
+		if !v.Accounted {
+			res.violate(Violation{Property: "C08", Kind: "tokens_not_accounted", InputB64: r.B64,
+				Reason: "Parse succeeded but re-printing the returned tree does not give back the source's tokens"})
+		}
+		if !v.Wellformed {
+			res.violate(Violation{Property: "C07", Kind: "accepted_tree_malformed", InputB64: r.B64,
+				Reason: "Parse succeeded with a tree that violates the grammar's operand levels or defaults"})
+		}
+	})
+	if n != len(side) {
+		fatal(fmt.Sprintf("TLC answered %d of %d trace records", n, len(side)))
+	}
+	res.write(a.str("out", "result.json"))
+}
+
+// errorPositionChecks: C10 for failed parses / compiles: every span of the
+// partial tree is invalid or inside the source, and line:column prefixes of
+// the error text point into the source.
+func errorPositionChecks(text string) string {
+	stmts, perr := parser.Parse(text)
+	for _, n := range listNodes(stmts) {
+		var sp parser.Span
+		if p, _ := guarded(text, "Span", func() { sp = n.Node.Span() }); p != nil {
+			return fmt.Sprintf("%s.Span() panicked on a partial tree: %v", n.Type, p)
+		}
+		if sp.IsValid() && sp.End > len(text) {
+			return fmt.Sprintf("%s.Span() = %v reaches beyond the source (length %d)", n.Type, sp, len(text))
+		}
+		if !sp.IsValid() && !(sp.Start == -1 && sp.End == -1) && !(sp.Start >= 0 && sp.End >= 0) {
+			return fmt.Sprintf("%s.Span() = %v is neither valid nor the null span", n.Type, sp)
+		}
+		for role, ps := range n.Parts {
+			if ps.IsValid() && ps.End > len(text) {
+				return fmt.Sprintf("%s part %q = %v reaches beyond the source", n.Type, role, ps)
+			}
+		}
+	}
+	check := func(err error, what string) string {
+		if err == nil {
+			return ""
+		}
+		lines := strings.Split(text, "\n")
+		for _, l := range strings.Split(err.Error(), "\n") {
+			l = strings.TrimPrefix(l, "parse pipeline query language: ")
+			var ln, col int
+			if n, _ := fmt.Sscanf(l, "%d:%d:", &ln, &col); n != 2 {
+				continue
+			}
+			if ln < 1 || ln > len(lines) {
+				return fmt.Sprintf("%s error %q: line %d is outside the source (%d lines)", what, firstLine(l), ln, len(lines))
+			}
+			// column of the position after the last character of that line (tab stops every 8)
+			maxCol := 1
+			for _, c := range lines[ln-1] {
+				if c == '\t' {
+					maxCol += 8 - (maxCol-1)%8
+				} else {
+					maxCol++
+				}
+			}
+			if col < 1 || col > maxCol {
+				return fmt.Sprintf("%s error %q: column %d is outside line %d (columns 1..%d)", what, firstLine(l), col, ln, maxCol)
+			}
+		}
+		return ""
+	}
+	if msg := check(perr, "Parse"); msg != "" {
+		return msg
+	}
+	var cerr error
+	if p, _ := guarded(text, "Compile", func() { _, cerr = pql.Compile(text) }); p != nil {
+		return ""
+	}
+	return check(cerr, "Compile")
 }
